@@ -979,3 +979,94 @@ example : ∃ c2 : Ctx, Similar exCtx c2 ∧ exCtx.buf.info[exCtx.buf.idx]? = c2
   rcases hx with rfl | rfl | rfl <;> rfl
 
 end RbModel.Flags
+
+
+/-! ### the ligature and the reverse-chaining subtables through the same instruments -/
+namespace RbModel.Flags
+open RbModel RbModel.Gsub
+
+/-- **the ligature and the reverse-chaining subtables of the model are "instrumented matching phase, then flag call / action"**:
+    the Ligature subtable is `firstRule` over `ligatureRule`; a ligature with components is `matchInputI` followed by
+    `unsafe_to_concat(idx, end_position)` or `ligate_input`; ReverseChainSingleSubst is the coverage test followed by `revMatchI`
+    (match_backtrack, then match_lookahead from `idx + 1`, with the reads) and
+    `unsafe_to_break_from_outbuffer` / `unsafe_to_concat_from_outbuffer(start_index, end_index)`.  Equations — nothing trusted. -/
+theorem C03_ligature_reverse_instrumented_same (recurse : Ctx → Nat → M (Ctx × Bool)) (nf : Bool) (c : Ctx) (cov : Cov)
+    (sets : List (List (List Nat × Nat))) (cl : List Nat × Nat) (hne : cl.1.isEmpty = false)
+    (back ahead : List Cov) (subst : List Nat) :
+    applySubtable recurse nf c (.ligature cov sets) = (do
+      let cur ← Mem.get c.buf.info c.buf.idx
+      match cov.index (cur.gid % 65536) with
+      | none => pure (c, false)
+      | some i => match sets[i]? with
+        | none => pure (c, false)
+        | some ligs => firstRule ligs c ligatureRule) ∧
+    ligatureRule c cl =
+      (matchInputI c cl.1.length (fun g i => g == cl.1.getD i 0) [0, 0, 0, 0] >>= ligatureFinish c cl) ∧
+    applySubtable recurse true c (.reverse cov back ahead subst) = (do
+      let cur ← Mem.get c.buf.info c.buf.idx
+      match cov.index (cur.gid % 65536) with
+      | none => pure (c, false)
+      | some i =>
+        if i ≥ subst.length then pure (c, false)
+        else revMatchI c back ahead >>= revFinish c (subst.getD i 0)) :=
+  ⟨applySubtable_ligature recurse nf c cov sets, ligatureRule_eq c cl hne, reverseRule_eq recurse c cov back ahead subst⟩
+
+/-- **a reverse-chaining substitution that applied flagged everything it inspected** (ReverseChainSingleSubst::apply, in the
+    state `apply_string` guarantees for reverse lookups: no out-buffer — `have_output = false`, so `backtrack_len = idx`,
+    `out_info()` is `info` and `unsafe_to_break_from_outbuffer(start, end)` is the one-sided call on `info[start, end)`, without
+    the short-range early return of `unsafe_to_break`).  When the matching phase and the action return `(c', true)`: the
+    matching phase ended with the span `[start_index, end_index)`, `start_index ≤ idx < end_index ≤ len`, and every glyph read —
+    the current glyph, the backtrack glyphs `Rd.out j` (`start_index ≤ j < idx`), the lookahead glyphs `Rd.inp i`
+    (`idx < i < end_index`), skipped glyphs included — in the flagged buffer `b` either belongs to the minimum cluster `m` of the
+    span or carries UNSAFE_TO_BREAK.  Monotone clusters over the buffer, all three cluster levels. -/
+theorem C03_reverse_match_flags_inspected (c c' : Ctx) (back ahead : List Cov) (s : Nat)
+    (h : (revMatchI c back ahead >>= revFinish c s) = .ok (c', true))
+    (hidx : c.buf.idx < c.buf.len) (hlen : c.buf.len ≤ c.buf.info.length) (hho : c.buf.haveOutput = false)
+    (hso : c.buf.sepOut = false)
+    (hu32 : ∀ j x, j < c.buf.len → c.buf.info[j]? = some x → x.cluster ≤ U32MAX)
+    (hmono : MonoRange c.buf.info 0 c.buf.len) :
+    ∃ (st e : Nat) (rs : List Rd) (b : Buf) (m : Nat),
+      revMatchI c back ahead = .ok (true, st, e, rs) ∧ c.buf.outArr = c.buf.info ∧ st ≤ c.buf.idx ∧ c.buf.idx < e ∧ e ≤ c.buf.len ∧
+      c.buf.unsafeToBreakFromOut st (some e) = .ok b ∧ IsRangeMin c.buf.info st e m ∧
+      ∀ x ∈ rs, RevRead c st e (fun i y => BreakFlagged b.info i y m) x := by
+  cases hm : revMatchI c back ahead with
+  | error er => simp only [hm, bind, Except.bind] at h; cases h
+  | ok v =>
+    obtain ⟨ok, st, e, rs⟩ := v
+    obtain ⟨s1, s2, s3, s4⟩ := revMatchI_span c back ahead ok st e rs hm hidx
+    have hbl : backtrackLen c.buf = c.buf.idx := by simp [backtrackLen, hho]
+    rw [hbl] at s1 s4
+    simp only [hm, bind, Except.bind, revFinish] at h
+    cases ok with
+    | false =>
+      simp only [Bool.false_eq_true, if_false] at h
+      cases hb : c.buf.unsafeToConcatFromOut st (some e) with
+      | error er => simp [hb] at h
+      | ok b => simp [hb, pure, Except.pure] at h
+    | true =>
+      obtain ⟨info, m, hb, hmin, hupd⟩ := setGlyphFlags_interior_noOutput c.buf
+        (Flag.UNSAFE_TO_BREAK ||| Flag.UNSAFE_TO_CONCAT) st e hho (by omega) s3 hlen
+        (fun j x _ a2 a3 => hu32 j x (by omega) a3) (MonoRange.shrink (MonoRange.shrinkL hmono (Nat.zero_le _)) s3)
+      refine ⟨st, e, rs, _, m, rfl, by simp [Buf.outArr, hso], s1, s2, s3, hb, hmin, ?_⟩
+      intro x hx
+      rcases s4 x hx with ⟨i, a1, a2, a3⟩ | ⟨j, a1, a2, a3⟩
+      · have hil : i < c.buf.info.length := by omega
+        exact Or.inl ⟨i, _, a1, a2, a3, List.getElem?_eq_getElem hil,
+          BreakFlagged.of_upd hupd (List.getElem?_eq_getElem hil) (by omega) a3⟩
+      · have hjl : j < c.buf.info.length := by omega
+        exact Or.inr ⟨j, _, a1, a2, a3, List.getElem?_eq_getElem hjl,
+          BreakFlagged.of_upd hupd (List.getElem?_eq_getElem hjl) a2 (by omega)⟩
+
+-- non-vacuity: backtrack [5], lookahead [3] (marks ignored) on 5 mark [1] mark 3: reads = current glyph, backtrack out[1]
+-- (the skipped mark), out[0], lookahead inp 3 (the skipped mark), inp 4; span = the whole buffer
+example : revMatchI revCtx [[5]] [[3]] = .ok (true, 0, 5, [.inp 2, .out 1, .out 0, .inp 3, .inp 4]) := by rfl
+example : ∃ c', (revMatchI revCtx [[5]] [[3]] >>= revFinish revCtx 7) = .ok (c', true) ∧
+    c'.buf.info.map (fun x => (x.gid, x.mask)) = [(5, 1), (10, 3), (7, 3), (10, 3), (3, 3)] ∧
+    revCtx.buf.idx < revCtx.buf.len ∧ revCtx.buf.len ≤ revCtx.buf.info.length ∧ revCtx.buf.haveOutput = false ∧
+    revCtx.buf.sepOut = false ∧
+    (∀ j x, j < revCtx.buf.len → revCtx.buf.info[j]? = some x → x.cluster ≤ U32MAX) ∧
+    MonoRange revCtx.buf.info 0 revCtx.buf.len :=
+  ⟨_, rfl, rfl, by decide, by decide, rfl, rfl, fun j x _ hx => u32_of_all (by decide) j x hx,
+   MonoRange.of_pairwise (by decide) _ _⟩
+
+end RbModel.Flags
